@@ -1,7 +1,7 @@
 """C06 Block layout follows the documented line and indentation rules."""
 from __future__ import annotations
 
-from engine.api import harness, pick
+from engine.api import conc, concrete, harness, pick
 from oracles.trees import (INLINE_CHILD, VALID_CHILD, b_el, b_list, child, spec_list, spec_tag, valid_nesting)
 
 N_VALID = len(VALID_CHILD)      # 24
@@ -42,7 +42,7 @@ def _pre_layout(B, root, k0, k1, k2, pr):
 
 
 @harness("C06", pre=_pre_layout,
-         bounds={"quick": {"SLOTS": 2, "PAIRS": 2}, "thorough": {"SLOTS": 3, "PAIRS": 4}},
+         bounds={"quick": {"SLOTS": 2, "PAIRS": 4}, "thorough": {"SLOTS": 3, "PAIRS": 4}},
          shard=lambda B: [{"root": r, "k0": k} for r in range(3) for k in range(N_INL if r == 1 else N_VALID)],
          sel=["root: block tag / inline tag / top-level list", "k0..k2: child variants from the catalogue of validly nested children "
               "(text, text with newline, HTML(), _repr_html_ object, metadata, void inline/block, block and inline elements with 10 grandchild patterns up to depth 3)",
@@ -52,9 +52,19 @@ def _pre_layout(B, root, k0, k1, k2, pr):
          outside="trees deeper than root + child + 3 levels of grandchild pattern; more than SLOTS children of the root")
 def h_layout(root: int, k0: int, k1: int, k2: int, pr: int) -> bool:
     """real renderer == line-based specification"""
-    real, a, is_list = _build(root, (k0, k1, k2))
-    indent, eol = pick(pr, _PAIRS)
-    got, want = _render_spec(real, a, is_list, indent, eol)
+    cands = VALID_CHILD if root != 1 else INLINE_CHILD
+    return concrete(_layout_body, conc(root, 0, 2), pick(k0, cands), pick(k1, cands), pick(k2, cands) if k2 >= 0 else -1, conc(pr, 0, 3))
+
+
+def _layout_body(root: int, i0: int, i1: int, i2: int, pr: int) -> bool:
+    kids = [child(k, i) for i, k in enumerate((i0, i1, i2)) if k >= 0]
+    kids = [k for k in kids if k is not None]
+    if root == 2:
+        real, a = b_list(kids)
+    else:
+        real, a = b_el("div" if root == 0 else "span", root == 0, kids, [("id", "r")])
+    indent, eol = _PAIRS[pr]
+    got, want = _render_spec(real, a, root == 2, indent, eol)
     return got == want
 
 
